@@ -171,9 +171,55 @@ static auto valid_line(std::string const& ty, Line const& l, std::size_t cap, st
     return false;
 }
 
+// Which objects are in a valid-but-unspecified state by the standard's book-keeping (mirror of
+// Tetl.C01.Spec.step): the source of a move, copies of it, until the object is given a specified value
+// again.  Such an object has no known size: only operations whose precondition does not mention the current
+// contents may be applied to it (mirror of Tetl.C01.Spec.stateFree / Spec.validPre).
+static auto is_binary(std::string const& op) -> bool
+{
+    return op == "copy_ctor" || op == "move_ctor" || op == "copy_assign" || op == "move_assign" || op == "swap"
+        || op == "swap_free" || op == "cmp";
+}
+static auto state_free(std::string const& op) -> bool
+{
+    return op == "resize" || op == "resize_val" || op == "assign_fill" || op == "assign_range" || op == "clear"
+        || op == "ctor_n" || op == "ctor_n_val" || op == "ctor_range" || op == "erase_val" || op == "erase_if"
+        || op == "try_push" || op == "try_push_rv" || op == "try_emplace" || op == "dump";
+}
+static auto respecifies(std::string const& op) -> bool
+{
+    return op == "assign_fill" || op == "assign_range" || op == "clear" || op == "ctor_n" || op == "ctor_n_val"
+        || op == "ctor_range";
+}
+
 struct Runner {
+    bool unspec[4] = {false, false, false, false};
     virtual ~Runner()                              = default;
     virtual auto step(Line const& l) -> std::string = 0;
+    // precondition part that depends on the specified-ness of object k (the rest is valid_line)
+    auto spec_valid(Line const& l) const -> bool
+    {
+        if (is_binary(l.op)) return true;
+        auto k = l.has("obj") && l.i("obj") >= 0 && l.i("obj") < 4 ? obj_of(l) : 0;
+        return !unspec[k] || state_free(l.op);
+    }
+    void track(Line const& l)
+    {
+        auto const& op = l.op;
+        auto k         = obj_of(l);
+        if (op == "copy_ctor" || op == "copy_assign") {
+            unspec[k] = unspec[other_of(l)];
+        } else if (op == "move_ctor" || op == "move_assign") {
+            auto j    = other_of(l);
+            bool t    = unspec[j];
+            unspec[k] = t;
+            unspec[j] = true;
+        } else if (op == "swap" || op == "swap_free") {
+            std::swap(unspec[k], unspec[other_of(l)]);
+        } else if (!is_binary(op) && unspec[k] && respecifies(op)) {
+            unspec[k] = false;
+        }
+    }
 };
 
 // ---------------------------------------------------------------- sequence containers (static_vector | std::vector)
@@ -409,8 +455,10 @@ struct SvRunner final : Runner {
     }
     auto step(Line const& l) -> std::string override
     {
-        if (!valid_line("sv", l, Cap, a[l.has("obj") && l.i("obj") >= 0 && l.i("obj") < 4 ? obj_of(l) : 0]->size()))
+        if (!valid_line("sv", l, Cap, a[l.has("obj") && l.i("obj") >= 0 && l.i("obj") < 4 ? obj_of(l) : 0]->size())
+            || !spec_valid(l))
             return "invalid\tinvalid";
+        track(l);
         auto x = side(a, l);
         // the std object can differ after an operation with an unspecified result (moved-from): an operation
         // that would be invalid on it is not executed and the std column is masked
@@ -485,8 +533,10 @@ struct StkRunner final : Runner {
     }
     auto step(Line const& l) -> std::string override
     {
-        if (!valid_line("stk", l, Cap, a[l.has("obj") && l.i("obj") >= 0 && l.i("obj") < 4 ? obj_of(l) : 0]->size()))
+        if (!valid_line("stk", l, Cap, a[l.has("obj") && l.i("obj") >= 0 && l.i("obj") < 4 ? obj_of(l) : 0]->size())
+            || !spec_valid(l))
             return "invalid\tinvalid";
+        track(l);
         auto x = side(a, l);
         std::string dx, dy;
         for (int i = 0; i < 4; ++i) dx += ";" + dump_stack<V, Cap>(*a[i]);
@@ -629,8 +679,10 @@ struct IpvRunner final : Runner {
     {
         for (int i = 0; i < 4; ++i)
             if (a[i]->size() > Cap) return l.op == "dump" ? dump_poisoned() : std::string("invalid\tinvalid");
-        if (!valid_line("ipv", l, Cap, a[l.has("obj") && l.i("obj") >= 0 && l.i("obj") < 4 ? obj_of(l) : 0]->size()))
+        if (!valid_line("ipv", l, Cap, a[l.has("obj") && l.i("obj") >= 0 && l.i("obj") < 4 ? obj_of(l) : 0]->size())
+            || !spec_valid(l))
             return "invalid\tinvalid";
+        track(l);
         auto x = impl(l);
         std::string dx, dy;
         for (int i = 0; i < 4; ++i) dx += ";" + dump_ipv(*a[i]);
@@ -643,9 +695,135 @@ struct IpvRunner final : Runner {
 };
 
 // ---------------------------------------------------------------- static facts
+// Does the container type offer the member behind the operation name of the line protocol?  Pure
+// compile-time probes (requires-expressions / type traits): nothing is executed.  -1 = unknown name.
+template <typename C, typename E>
+static auto has_seq_member(std::string const& m) -> int
+{
+    using P = typename C::const_iterator;
+    auto pred = [](E const&) { return true; };
+    (void)pred;
+    if (m == "push") return requires(C& c, E const& v) { c.push_back(v); };
+    if (m == "push_rv") return requires(C& c, E&& v) { c.push_back(std::move(v)); };
+    if (m == "emplace_back") return requires(C& c) { c.emplace_back(1); };
+    if (m == "pop") return requires(C& c) { c.pop_back(); };
+    if (m == "insert") return requires(C& c, P p, E const& v) { c.insert(p, v); };
+    if (m == "insert_rv") return requires(C& c, P p, E&& v) { c.insert(p, std::move(v)); };
+    if (m == "emplace") return requires(C& c, P p) { c.emplace(p, 1); };
+    if (m == "insert_fill") return requires(C& c, P p, std::size_t n, E const& v) { c.insert(p, n, v); };
+    if (m == "insert_range") return requires(C& c, P p, E const* f) { c.insert(p, f, f); };
+    if (m == "move_insert")
+        return requires(C& c, P p, E* f) { c.move_insert(p, f, f); }
+            || requires(C& c, P p, E* f) { c.insert(p, std::make_move_iterator(f), std::make_move_iterator(f)); };
+    if (m == "erase") return requires(C& c, P p) { c.erase(p); };
+    if (m == "erase_range") return requires(C& c, P p) { c.erase(p, p); };
+    if (m == "resize") return requires(C& c, std::size_t n) { c.resize(n); };
+    if (m == "resize_val") return requires(C& c, std::size_t n, E const& v) { c.resize(n, v); };
+    if (m == "assign_fill") return requires(C& c, std::size_t n, E const& v) { c.assign(n, v); };
+    if (m == "assign_range") return requires(C& c, E const* f) { c.assign(f, f); };
+    if (m == "clear") return requires(C& c) { c.clear(); };
+    if (m == "ctor_n") return std::is_constructible_v<C, std::size_t>;
+    if (m == "ctor_n_val") return std::is_constructible_v<C, std::size_t, E const&>;
+    if (m == "ctor_range") return std::is_constructible_v<C, E const*, E const*>;
+    if (m == "copy_ctor") return std::is_copy_constructible_v<C>;
+    if (m == "move_ctor") return std::is_move_constructible_v<C>;
+    if (m == "copy_assign") return std::is_copy_assignable_v<C>;
+    if (m == "move_assign") return std::is_move_assignable_v<C>;
+    if (m == "swap") return requires(C& c) { c.swap(c); };
+    if (m == "swap_free") return requires(C& c) { swap(c, c); };
+    if (m == "erase_val") return requires(C& c, E const& v) { erase(c, v); };
+    if (m == "erase_if") return requires(C& c, decltype(pred) q) { erase_if(c, q); };
+    if (m == "cmp")
+        return requires(C const& c) {
+            c == c;
+            c != c;
+            c < c;
+            c <= c;
+            c > c;
+            c >= c;
+        };
+    if (m == "try_push") return requires(C& c, E const& v) { c.try_push_back(v); };
+    if (m == "try_push_rv") return requires(C& c, E&& v) { c.try_push_back(std::move(v)); };
+    if (m == "try_emplace") return requires(C& c) { c.try_emplace_back(1); };
+    if (m == "unchecked_push") return requires(C& c, E const& v) { c.unchecked_push_back(v); };
+    if (m == "unchecked_push_rv") return requires(C& c, E&& v) { c.unchecked_push_back(std::move(v)); };
+    if (m == "unchecked_emplace") return requires(C& c) { c.unchecked_emplace_back(1); };
+    if (m == "dump") return requires(C const& c) { c.size(); c.empty(); c.begin(); c.end(); };
+    return -1;
+}
+
+static char const* const ALL_MEMBERS[] = {"push", "push_rv", "emplace_back", "pop", "insert", "insert_rv", "emplace",
+    "insert_fill", "insert_range", "move_insert", "erase", "erase_range", "resize", "resize_val", "assign_fill", "assign_range",
+    "clear", "ctor_n", "ctor_n_val", "ctor_range", "copy_ctor", "move_ctor", "copy_assign", "move_assign", "swap", "swap_free",
+    "erase_val", "erase_if", "cmp", "try_push", "try_push_rv", "try_emplace", "unchecked_push", "unchecked_push_rv",
+    "unchecked_emplace", "dump"};
+
+template <typename C, typename E>
+static auto has_stack_member(std::string const& m) -> int
+{
+    if (m == "push") return requires(C& c, E const& v) { c.push(v); };
+    if (m == "push_rv") return requires(C& c, E&& v) { c.push(std::move(v)); };
+    if (m == "emplace_back") return requires(C& c) { c.emplace(1); };
+    if (m == "pop") return requires(C& c) { c.pop(); };
+    if (m == "copy_ctor") return std::is_copy_constructible_v<C>;
+    if (m == "move_ctor") return std::is_move_constructible_v<C>;
+    if (m == "copy_assign") return std::is_copy_assignable_v<C>;
+    if (m == "move_assign") return std::is_move_assignable_v<C>;
+    if (m == "swap") return requires(C& c) { c.swap(c); };
+    if (m == "swap_free") return requires(C& c) { swap(c, c); };
+    if (m == "cmp")
+        return requires(C const& c) {
+            c == c;
+            c != c;
+            c < c;
+            c <= c;
+            c > c;
+            c >= c;
+        };
+    if (m == "dump") return requires(C const& c) { c.size(); c.empty(); c.top(); };
+    // a container adaptor offers none of the sequence members
+    if (m == "insert_fill") return requires(C& c, std::size_t n, E const& v) { c.insert(nullptr, n, v); };
+    if (m == "resize") return requires(C& c, std::size_t n) { c.resize(n); };
+    if (m == "clear") return requires(C& c) { c.clear(); };
+    for (auto const* k : ALL_MEMBERS)
+        if (m == k) return 0;
+    return -1;
+}
+
+template <typename T>
+struct is_stack_type : std::false_type { };
+template <typename E, typename Q>
+struct is_stack_type<std::stack<E, Q>> : std::true_type { };
+template <typename E, typename Q>
+struct is_stack_type<etl::stack<E, Q>> : std::true_type { };
+
+// `api_member ty=… cap=… kind=… member=<op name>`: impl = the tetl type, reference = the std type.  libstdc++ 12
+// has no std::inplace_vector: its reference is std::vector for the common members and the synopsis of
+// [inplace.vector] (try_* / unchecked_* exist) for the rest.
+template <typename V, typename R, typename E>
+static auto api_member(Line const& l, bool ipv) -> std::string
+{
+    auto m = l.str("member");
+    int a = 0, b = 0;
+    if constexpr (is_stack_type<V>::value) {
+        a = has_stack_member<V, E>(m);
+        b = has_stack_member<R, E>(m);
+    } else {
+        a = has_seq_member<V, E>(m);
+        b = has_seq_member<R, E>(m);
+        if (ipv && (m.rfind("try_", 0) == 0 || m.rfind("unchecked_", 0) == 0)) b = 1;
+    }
+    if (a < 0 || b < 0) return "bad-op\tbad-op";
+    return "has=" + std::to_string(a) + "\thas=" + std::to_string(b);
+}
+
 template <typename V, typename R, std::size_t Cap>
 static auto api(Line const& l) -> std::string
 {
+    if (l.op == "api_member") {
+        using E = typename R::value_type;
+        return api_member<V, R, E>(l, std::is_same_v<V, etl::inplace_vector<E, Cap>>);
+    }
     if (l.op == "api_bits") {
         auto s = "bits=" + std::to_string(sizeof(etl::smallest_size_t<Cap>) * 8);
         return s + "\t" + s;
@@ -709,9 +887,10 @@ static std::unique_ptr<Runner> g_runner;
 static auto step(Line const& l) -> std::string
 {
     // watchdog: a single operation that runs away (e.g. a loop whose bound no longer matches a truncated
-    // size) ends the process; check.py reports the line as a crash instead of hanging
-    alarm(5);
-    if (l.op == "new" || l.op == "api_bits" || l.op == "api_assign") {
+    // size) ends the process; check.py reports the line as a crash instead of hanging.  Wall-clock seconds:
+    // generous, the machine may be heavily loaded
+    alarm(20);
+    if (l.op == "new" || l.op == "api_bits" || l.op == "api_assign" || l.op == "api_member") {
         auto ty   = l.str("ty");
         auto cap  = static_cast<std::size_t>(l.i("cap"));
         auto kind = l.str("kind");
@@ -734,6 +913,7 @@ static auto step(Line const& l) -> std::string
 int main(int argc, char** argv)
 {
     int rc = proto::run(argc, argv, step);
+    alarm(0); // all lines answered: the watchdog must not fire during teardown / the leak check at exit
     g_runner.reset();
     return rc;
 }
